@@ -189,7 +189,7 @@ def check_fixture_edit(ctx, case):
         shutil.rmtree(tmp, ignore_errors=True)
 
 
-size_sets = st.lists(st.tuples(st.integers(0, 5), st.sampled_from(["row", "col"]), st.floats(0, 0.999), st.integers(30, 500)).map(list), min_size=1, max_size=5)
+size_sets = st.lists(st.tuples(st.integers(0, 5), st.sampled_from(["row", "col"]), st.floats(0, 0.999), st.integers(30, 500) | st.integers(30, 500) | st.sampled_from([98, 97, 99])).map(list), min_size=1, max_size=5)
 
 
 def has_borders(doc):
@@ -342,8 +342,9 @@ def specs(draw):
                 length = draw(st.integers(1, (cols - c) if side in ("top", "bottom") else (rows - r)))
                 borders.append([r, c, side, draw(st.sampled_from([0.25, 0.5, 1.0, 2.0, 3.0, 8.0])), length])
         lo = 10 if with_borders else 5   # a size must exceed the whole-point border allowance of its line (at most 8 here)
-        rh = [[r, draw(st.integers(lo, 500))] for r in sorted(draw(st.sets(st.integers(0, rows - 1), max_size=4)))]
-        cw = [[c, draw(st.integers(lo, 500))] for c in sorted(draw(st.sets(st.integers(0, cols - 1), max_size=3)))]
+        # one size in three is the default of a new table or next to it (20 / 98): set explicitly, it must survive like any other
+        rh = [[r, draw(st.integers(lo, 500) | st.integers(lo, 500) | st.sampled_from([20, 20, 19, 21]))] for r in sorted(draw(st.sets(st.integers(0, rows - 1), max_size=4)))]
+        cw = [[c, draw(st.integers(lo, 500) | st.integers(lo, 500) | st.sampled_from([98, 98, 97, 99]))] for c in sorted(draw(st.sets(st.integers(0, cols - 1), max_size=3)))]
         ts = {"name": f"T{i}" if draw(st.booleans()) else draw(st.sampled_from(["Table A", "Übersicht", "x y", "Q3 \"plan\""])) + str(i),
               "rows": rows, "cols": cols, "hr": hr, "hc": hc, "borders": borders, "row_heights": rh, "col_widths": cw,
               "caption": draw(st.none() | st.text(max_size=15)), "caption_enabled": draw(st.none() | st.booleans()),
